@@ -1487,15 +1487,33 @@ pub fn run(opts: &Opts) {
 			run.case(&d, ind, &format!("gen+{style}"), &feats, false);
 		}
 	}
+	// 3. tokens that span lines or contain tabs (strings with literal line breaks / tabs / CR /
+	//    trailing blanks, `/* */` comments with tabs and differing indentation, text blocks with
+	//    tabs / blank / whitespace-only lines), each at nesting depth 0..=3 under every indent
+	//    setting: the family of the C20 engine, here against the validator (string VALUES and comment
+	//    texts must survive).  Own PRNG stream: the corpora above stay what they were for a seed.
+	let mut srng = Rng::new(opts.seed ^ 0xC19_5BA);
+	let mut span_labels: BTreeMap<String, usize> = BTreeMap::new();
+	for (i, sp) in super::c20::spanning_programs(&mut srng, if opts.thorough() { 2000 } else { 200 }).iter().enumerate() {
+		let kind = sp.label.split('.').next().unwrap_or("?");
+		if let Some(why) = sp.skip {
+			*span_labels.entry(format!("{kind}.excluded-{why}")).or_default() += 1;
+			continue;
+		}
+		*span_labels.entry(format!("{kind}.depth{}", sp.depth)).or_default() += 1;
+		for ind in [2u8, 0, 4] {
+			run.case(&sp.src, ind, &format!("span:{}:depth{}", sp.label, sp.depth), &[], ind == 2 && i % 16 == 0);
+		}
+	}
 	let n = run.w.n;
 	let stats = run.stats.clone();
 	let _ = run.opts;
 	run.w.finish(
 		json!({
 			"engine": "c19", "cases": n, "programs": n_prog, "seeds": SEEDS.len(),
-			"stats": stats, "features": feats_total,
+			"stats": stats, "features": feats_total, "spanning": span_labels,
 			"bin": run.fmt_bin.as_ref().map(|p| p.display().to_string()),
-			"rule": "token-level typed generator over all constructs (depth 1..4) + hand-written seeds; each program plain x indent {tabs,2,4}, with random source line breaks, and decorated with block / // / # / mixed comments at every token boundary; real format() -> re-parse with jrsonnet_ir_parser -> Lean validator",
+			"rule": "token-level typed generator over all constructs (depth 1..4) + hand-written seeds; each program plain x indent {tabs,2,4}, with random source line breaks, and decorated with block / // / # / mixed comments at every token boundary; plus the span family of the C20 engine (string literals, block comments and text blocks that span lines or contain tabs / CR / trailing blanks, at nesting depth 0..=3 x indent {tabs,2,4}); real format() -> re-parse with jrsonnet_ir_parser -> Lean validator",
 		}),
 		&opts.out,
 	);
